@@ -315,7 +315,7 @@ def ob_analyzer_history(W, seq, order, iscsd, backend):
 
     def run(ops):
         rec = C05.Rec()
-        G, win_stub = C05._sym_setup(rec, "kaiser")
+        G, win_stub = C05._sym_setup(rec, "kaiser", run_real=True)     # the NumPy fallbacks really run on the analyzer's arrays
         a = C05._mk(W, G, N, order, iscsd, backend, "kaiser", win_stub, 2.5, fs, x1, x2)
         a.config["scheduler_func"] = mkplan
         a._cfg_at_start = dict(a.config)
